@@ -245,8 +245,17 @@ RoundTrip == done => \A k \in 1..Len(sibs) :
                    /\ LET t == Tokens(SafePass.names[k] \o <<"/">>) IN Len(t) = 1 /\ Norm(t[1]) = Norm(SafePass.names[k])
                    /\ LET t == Tokens(SafePass.names[k] \o <<"\\">>) IN Len(t) = 1 /\ Norm(t[1]) = Norm(SafePass.names[k])
 
+\* probe strings for parse_path: each printed name and corruptions of it, with the predicted lookup result
+Lower(c) == IF \E k \in 1..26 : UpperSeq[k] = c THEN LowerSeq[CHOOSE k \in 1..26 : UpperSeq[k] = c] ELSE c
+Mutations(nm) == {nm, <<" ">> \o nm \o <<" ", " ">>, Append(nm, "x"), Append(nm, ":"),
+                  IF nm = <<>> THEN <<>> ELSE SubSeq(nm, 1, Len(nm) - 1),
+                  [k \in 1..Len(nm) |-> Lower(nm[k])], [k \in 1..Len(nm) |-> Upper(nm[k])],
+                  <<"Z", "z", "9">>, <<>>, <<" ">>}
+Probes == LET texts == UNION {Mutations(SafePass.names[k]) : k \in 1..Len(sibs)} IN
+          {[text |-> t, hit |-> Lookup(t), blank |-> Strip(t) = <<>>] : t \in texts}
+
 Emit == (EmitCases /\ done) =>
    PrintT(<<"CASE", ToJson([names |-> [k \in 1..Len(sibs) |-> NameOf(k)], isdir |-> IsDir,
                             safe |-> SafePass.names, export |-> ExportPass.names,
-                            err |-> SafePass.err \/ ExportPass.err, outputs |-> Outputs])>>)
+                            err |-> SafePass.err \/ ExportPass.err, outputs |-> Outputs, probes |-> Probes])>>)
 =============================================================================
